@@ -60,7 +60,9 @@ type caseIn struct {
 }
 
 type input struct {
-	Cases []caseIn `json:"cases"`
+	Cases  []caseIn `json:"cases"`
+	Stride int      `json:"stride"` // sweep variants: every Stride-th character position, starting at Offset
+	Offset int      `json:"offset"`
 }
 
 type realisation struct {
@@ -102,6 +104,8 @@ type world struct {
 	api      tokenV2.Middleware
 	certs    map[string]string
 	ldCache  map[string]*ldBase
+	stride   int
+	offset   int
 }
 
 type scriptedDIDResolver struct{ docs map[string]*did.Document }
@@ -647,6 +651,20 @@ func (w *world) forge(b *base, variant string) ([]forged, error) {
 		return []forged{{name: "bit-flipped", jws: txforge.ReplaceSeg(valid, 2, txforge.B64(flip))},
 			{name: "truncated", jws: txforge.ReplaceSeg(valid, 2, txforge.B64(raw[:len(raw)-1]))},
 			{name: "empty", jws: txforge.ReplaceSeg(valid, 2, "")}}, nil
+	case "sweep-h", "sweep-p", "sweep-s":
+		seg := map[byte]int{'h': 0, 'p': 1, 's': 2}[variant[len(variant)-1]]
+		if seg == 1 && b.detached {
+			return nil, errNA
+		}
+		const alphabet = "ABCDEFGHIJKLMNOPQRSTUVWXYZabcdefghijklmnopqrstuvwxyz0123456789-_"
+		out := []forged{}
+		text := segs[seg]
+		for pos := w.offset % w.stride; pos < len(text); pos += w.stride {
+			idx := strings.IndexByte(alphabet, text[pos])
+			mut := text[:pos] + string(alphabet[idx^32]) + text[pos+1:] // the top bit of a sextet is always a used bit
+			out = append(out, forged{name: fmt.Sprintf("pos-%d", pos), jws: txforge.ReplaceSeg(valid, seg, mut)})
+		}
+		return out, nil
 	case "extra-segment":
 		return []forged{{name: "empty-4th-segment", jws: valid + "."}, {name: "4th-segment", jws: valid + ".AAAA"},
 			{name: "5-segments", jws: valid + ".AAAA.AAAA"}}, nil
@@ -826,6 +844,9 @@ func (w *world) run(c caseIn) (res result) {
 				r.Accepted = true
 			}
 		}()
+		if len(res.Real) >= 3 && !r.Accepted {
+			r.Token = ""
+		}
 		res.Real = append(res.Real, r)
 	}
 	return
@@ -847,6 +868,10 @@ func TestDriver(t *testing.T) {
 		t.Fatal(err)
 	}
 	w := newWorld(t)
+	w.stride, w.offset = in.Stride, in.Offset
+	if w.stride <= 0 {
+		w.stride = 1
+	}
 	out, err := os.Create(outPath)
 	if err != nil {
 		t.Fatal(err)
